@@ -4,6 +4,7 @@ package parser
 
 import (
 	"regexp"
+	"strings"
 
 	"github.com/lmorg/murex/utils/ansi/codes"
 )
@@ -120,6 +121,16 @@ func Parse(block []rune, pos int) (pt ParsedTokens, syntaxHighlighted string) {
 		ansiReset(block[i])
 	}
 
+	// endFunc is called where a command name ends without a following space:
+	// the name read so far is checked against the safe list before it is
+	// overwritten by the next command's name
+	endFunc := func() {
+		if readFunc {
+			readFunc = false
+			pt.Unsafe = isCmdUnsafe(pt.FuncName) || pt.Unsafe
+		}
+	}
+
 	next := func(r rune) bool {
 		if i+1 < len(block) {
 			return block[i+1] == r
@@ -135,6 +146,12 @@ func Parse(block []rune, pos int) (pt ParsedTokens, syntaxHighlighted string) {
 
 		if !pt.Escaped {
 			pt.LastCharacter = block[i]
+		}
+
+		// escaped and quoted runes are literal text: where a command is
+		// expected they are part of its name
+		if pt.ExpectFunc && (pt.Escaped || pt.QuoteSingle || pt.QuoteDouble || pt.QuoteBrace > 0) {
+			readFunc = true
 		}
 
 		if pt.VarSigil != "" {
@@ -234,6 +251,7 @@ func Parse(block []rune, pos int) (pt ParsedTokens, syntaxHighlighted string) {
 				*pt.pop += `(`
 				syntaxHighlighted += string(block[i])
 			case pt.ExpectFunc:
+				endFunc() // `name(parameters)` runs `name`
 				pt.ExpectFunc = false
 				ansiColour(hlBraceQuote, block[i])
 				pt.FuncName = "("
@@ -352,10 +370,12 @@ func Parse(block []rune, pos int) (pt ParsedTokens, syntaxHighlighted string) {
 			case pt.QuoteSingle, pt.QuoteDouble, pt.QuoteBrace > 0:
 				*pt.pop += ` `
 				syntaxHighlighted += string(block[i])
-			case i > 0 && (block[i-1] == '-' || block[i-1] == '='):
+			case i > 0 && (block[i-1] == '-' || block[i-1] == '=') && strings.HasSuffix(syntaxHighlighted, string(block[i-1])):
+				// (an escaped `\-` or `\=` is followed by a colour code: not a pipe token)
 				if pos != 0 && pt.Loc >= pos {
 					return
 				}
+				endFunc()
 				pt.Loc = i
 				pt.LastFlowToken = i - 1
 				pt.ExpectFunc = true
@@ -417,6 +437,7 @@ func Parse(block []rune, pos int) (pt ParsedTokens, syntaxHighlighted string) {
 				if pos != 0 && pt.Loc >= pos {
 					return
 				}
+				endFunc()
 				pt.LastFlowToken = i
 				pt.ExpectFunc = true
 				pt.SquareBracket = false
@@ -461,6 +482,7 @@ func Parse(block []rune, pos int) (pt ParsedTokens, syntaxHighlighted string) {
 				if pos != 0 && pt.Loc >= pos {
 					return
 				}
+				endFunc()
 				pt.LastFlowToken = i
 				pt.ExpectFunc = true
 				pt.SquareBracket = false
@@ -488,6 +510,7 @@ func Parse(block []rune, pos int) (pt ParsedTokens, syntaxHighlighted string) {
 				if pos != 0 && pt.Loc >= pos {
 					return
 				}
+				endFunc()
 				pt.LastFlowToken = i
 				pt.ExpectFunc = true
 				pt.SquareBracket = false
@@ -535,6 +558,7 @@ func Parse(block []rune, pos int) (pt ParsedTokens, syntaxHighlighted string) {
 				if pos != 0 && pt.Loc >= pos {
 					return
 				}
+				endFunc()
 				pt.LastFlowToken = i
 				pt.ExpectFunc = true
 				pt.SquareBracket = false
@@ -573,6 +597,7 @@ func Parse(block []rune, pos int) (pt ParsedTokens, syntaxHighlighted string) {
 				*pt.pop += `{`
 				syntaxHighlighted += string(block[i])
 			default:
+				endFunc()
 				pt.NestedBlock++
 				pt.ExpectFunc = true
 				pt.PipeToken = PipeTokenNone
@@ -594,6 +619,7 @@ func Parse(block []rune, pos int) (pt ParsedTokens, syntaxHighlighted string) {
 				*pt.pop += `}`
 				syntaxHighlighted += "}"
 			default:
+				endFunc()
 				if pt.NestedBlock >= 1 {
 					i := pt.NestedBlock % len(hlBlock)
 					syntaxHighlighted += hlBlock[i] + "}" + codes.Reset
@@ -715,15 +741,15 @@ func Parse(block []rune, pos int) (pt ParsedTokens, syntaxHighlighted string) {
 				ansiReset(block[i])
 				switch block[i] {
 				case 'r':
-					*pt.pop = "\r"
+					*pt.pop += "\r"
 				case 'n':
-					*pt.pop = "\n"
+					*pt.pop += "\n"
 				case 's':
-					*pt.pop = " "
+					*pt.pop += " "
 				case 't':
-					*pt.pop = "\t"
+					*pt.pop += "\t"
 				default:
-					*pt.pop = string(block[i])
+					*pt.pop += string(block[i])
 				}
 			case readFunc:
 				*pt.pop += string(block[i])
